@@ -292,11 +292,11 @@ func glueTyped(dir string) (*typedInfo, error) {
 		sb.WriteString("},\n")
 	}
 	sb.WriteString("}\n\n")
-	sb.WriteString("// SimTypedNew builds one server and one client (and the webhook pair, if any) around the callbacks.\nfunc SimTypedNew(cb func(ctx context.Context, op string, args []any, res any) error, ne func(ctx context.Context, err error, res any), fill func(any), hc ht.Client, mws ...middleware.Middleware) (http.Handler, any, any, error) {\n")
+	sb.WriteString("// SimTypedNew builds one server and one client (and the webhook pair, if any) around the callbacks.\nfunc SimTypedNew(cb func(ctx context.Context, op string, args []any, res any) error, ne func(ctx context.Context, err error, res any), fill func(any), hc ht.Client, eh func(context.Context, http.ResponseWriter, *http.Request, error), mws ...middleware.Middleware) (http.Handler, any, any, error) {\n")
 	if serverSec {
-		sb.WriteString("\tsrv, err := NewServer(&simTyped{cb: cb, ne: ne}, simSec{}, WithMiddleware(mws...))\n")
+		sb.WriteString("\tsrv, err := NewServer(&simTyped{cb: cb, ne: ne}, simSec{}, WithMiddleware(mws...), WithErrorHandler(eh))\n")
 	} else {
-		sb.WriteString("\tsrv, err := NewServer(&simTyped{cb: cb, ne: ne}, WithMiddleware(mws...))\n")
+		sb.WriteString("\tsrv, err := NewServer(&simTyped{cb: cb, ne: ne}, WithMiddleware(mws...), WithErrorHandler(eh))\n")
 	}
 	sb.WriteString("\tif err != nil {\n\t\treturn nil, nil, nil, err\n\t}\n")
 	if clientSec {
@@ -307,9 +307,9 @@ func glueTyped(dir string) (*typedInfo, error) {
 	sb.WriteString("\tif err != nil {\n\t\treturn nil, nil, nil, err\n\t}\n")
 	if withWH {
 		if whServerSec {
-			sb.WriteString("\twhs, err := NewWebhookServer(&simTypedWH{cb: cb}, simSec{}, WithMiddleware(mws...))\n")
+			sb.WriteString("\twhs, err := NewWebhookServer(&simTypedWH{cb: cb}, simSec{}, WithMiddleware(mws...), WithErrorHandler(eh))\n")
 		} else {
-			sb.WriteString("\twhs, err := NewWebhookServer(&simTypedWH{cb: cb}, WithMiddleware(mws...))\n")
+			sb.WriteString("\twhs, err := NewWebhookServer(&simTypedWH{cb: cb}, WithMiddleware(mws...), WithErrorHandler(eh))\n")
 		}
 		sb.WriteString("\tif err != nil {\n\t\treturn nil, nil, nil, err\n\t}\n")
 		if whClientSec {
